@@ -96,13 +96,21 @@ def run_history(n: int, comp: str, v, history) -> Any:
 
 
 class Checker:
-    """Base class: override clean() / edge(); return None or a violation message."""
+    """Base class: override clean() / edge(); return None or a violation message.
+
+    `live` is the real game object in the state being checked (set by the explorer before clean())."""
+
+    live: Any = None
 
     def clean(self, K: int, tab: Tab, how: str) -> str | None:  # noqa: ARG002
         return None
 
     def edge(self, K0: int, tab0: Tab, S: int, K1: int, tab1: Tab, how: str) -> str | None:  # noqa: ARG002
         return None
+
+    def recheck(self, K: int, tab: Tab, history) -> str | None:
+        """Re-evaluation of a state reached by `history` on a fresh object (shrinking / replay)."""
+        return self.clean(K, tab, "replay")
 
 
 class LatticeRun:
@@ -169,10 +177,28 @@ class LatticeRun:
             if tab.k != K:
                 self._viol(f"knowledge after set_known_values({kmask_ids(K)}) is {kmask_ids(tab.k)}", hist)
                 continue
+            self.checker.live = g
             msg = self.checker.clean(K, tab, "fresh")
             self.stats.evals += 1
             if msg:
                 self._viol(msg, hist, K=kmask_ids(K))
+
+    def edges_from_tables(self) -> None:
+        """Every reveal edge (K, K+{S}) of the lattice, judged on the canonical tables obtained by fresh()."""
+        for K, t0 in self.T.items():
+            if self.dead:
+                return
+            for s in self.ex:
+                if K >> s & 1:
+                    continue
+                t1 = self.T.get(K | 1 << s)
+                if t1 is None:
+                    continue
+                self.stats.transitions += 1
+                self.stats.evals += 1
+                msg = self.checker.edge(K, t0, s, K | 1 << s, t1, "tables")
+                if msg:
+                    self._viol(msg, [("reset", K), ("compute",), ("reveal", s), ("compute",)], K=kmask_ids(K), S=s)
 
     def canonical(self, K: int) -> Tab | None:
         t = self.T.get(K)
@@ -198,6 +224,7 @@ class LatticeRun:
                 return
         visited = {self.base}
         cur = read(g)
+        self.checker.live = g
         self._euler_check_clean(self.base, cur, hist, compare_canonical)
         stack: list[tuple[int, int]] = []   # (K, next index into ex)
         K, idx = self.base, 0
@@ -267,13 +294,13 @@ class LatticeRun:
         msg = self.checker.clean(K, tab, "euler")
         self.stats.evals += 1
         if msg:
-            self._viol(msg, self._shrink_state(K, hist, lambda t: self.checker.clean(K, t, "euler")), K=kmask_ids(K))
+            self._viol(msg, self._shrink_state(K, hist, lambda t, h: self.checker.recheck(K, t, h)), K=kmask_ids(K))
         if compare_canonical:
             c = self.canonical(K)
             if c is not None and c.key != tab.key:
                 self._viol(f"path dependence: table at K={kmask_ids(K)} after a walk differs from the table of a fresh object"
                            f" (walk lower={tab.lo.tolist()} upper={tab.up.tolist()}; fresh lower={c.lo.tolist()} upper={c.up.tolist()})",
-                           self._shrink_state(K, hist, lambda t: "differs" if t.key != c.key else None),
+                           self._shrink_state(K, hist, lambda t, h: "differs" if t.key != c.key else None),
                            K=kmask_ids(K), expect_canonical=True)
 
     def _shrink_state(self, K, hist, bad: Callable[[Tab], Any]):
@@ -299,7 +326,7 @@ class LatticeRun:
                 t = read(run_history(self.n, self.comp, self.v, short))
             except Exception:  # noqa: BLE001
                 continue
-            if t.k == K and bad(t):
+            if t.k == K and bad(t, short):
                 return short
         return list(ops)
 
@@ -368,6 +395,7 @@ class LatticeRun:
                         if tc.k != k_expected or td.k != k_expected:
                             self._viol(f"knowledge after {op} is {kmask_ids(tc.k)}, expected {kmask_ids(k_expected)}", h2)
                             continue
+                        self.checker.live = gc
                         msg = self.checker.clean(tc.k, tc, "dirty")
                         self.stats.evals += 1
                         if msg:
@@ -425,7 +453,7 @@ def replay_lattice(doc: dict, make_checker: Callable[[dict], Checker]) -> tuple[
     tab = read(g)
     lines.append(f"final knowledge={kmask_ids(tab.k)} lower={tab.lo.tolist()} upper={tab.up.tolist()}")
     chk = make_checker(doc)
-    msg = chk.clean(tab.k, tab, "replay")
+    msg = chk.recheck(tab.k, tab, hist)
     if msg:
         return True, "\n".join(lines + [f"checker: {msg}"])
     if doc.get("expect_canonical"):
